@@ -188,6 +188,14 @@ def lazy_documents():
     for n in (9, 10, 20, 50):
         yield ('> ' * n + 'w\n' + '> ' * n + '\n' + '> ' * n + '# h\n', [('quote', 1)] * n + [('para', 1), ('atx', 3)])
         yield ('- ' * n + 'w\n', [x for _ in range(n) for x in (('list', 1), ('item', 1))] + [('para', 1)])
+    # items whose marker is followed by white space only (1-5 spaces, tabs): the content starts on the next line
+    for marker in ('-', '1.', '10)'):
+        for ws in ('', ' ', '  ', '   ', '    ', '     ', '\t', '\t\t', ' \t', '  \t '):
+            ind = ' ' * (len(marker) + 1)
+            yield (marker + ws + '\n' + ind + 'alpha\n', [('list', 1), ('item', 1), ('para', 2)])
+            yield ('> ' + marker + ws + '\n> ' + ind + 'alpha\n', [('quote', 1), ('list', 1), ('item', 1), ('para', 2)])
+            yield ('- a\n' + marker[:1].replace('1', '-') + ws + '\n  > q\n' if marker == '-' else marker + ' a\n' + marker.replace('1.', '2.').replace('10)', '11)') + ws + '\n' + ind + '> q\n',
+                   [('list', 1), ('item', 1), ('para', 1), ('item', 2), ('quote', 3), ('para', 3)])
     # tables whose rows have fewer / as many / more cells than the delimiter row has columns (every cell reports the row's line)
     rows = ['| c1 |', '| c2 | d |', '| c3 | d | e |', '| c4 | d | e | f |', '|', '| | | |', '|---|---|', '| x | y |', '- | -', '| :-: | -- |', '| z |']
     for k in range(1, len(rows) + 1):
